@@ -506,6 +506,35 @@ verify_file(const char *when)
                 GRendaccess(ri);
             }
         }
+        /* palette descriptors: GRgetpalinfo for every array size from 1 to one more than the number of palette descriptors
+           (tags 201 IP8 and 301 LUT) the independent reader finds, exactly-sized heap arrays */
+        if (G != FAIL) {
+            int want = 0;
+            for (int i = 0; i < fc.ndd; i++)
+                if (fc.dd[i].tag == 201 || fc.dd[i].tag == 301)
+                    want++;
+            int np = GRgetpalinfo(G, 0, NULL);
+            if (np != want)
+                viol("datainfo:palette-count", "%s: GRgetpalinfo(count query) returns %d, the file holds %d palette descriptors", when, np, want);
+            for (int k = 1; k <= want + 1 && want > 0; k++) {
+                hdf_ddinfo_t *pa = malloc((size_t)k * sizeof *pa);
+                memset(pa, 0xEE, (size_t)k * sizeof *pa);
+                int got = GRgetpalinfo(G, (unsigned)k, pa), exp = k < want ? k : want;
+                if (got != exp)
+                    viol("datainfo:palette-return", "%s: GRgetpalinfo with an array of %d for %d palette descriptors returns %d", when, k, want, got);
+                for (int i = 0; i < got && i < k; i++) {
+                    const fc_dd *pd = (pa[i].tag == 201 || pa[i].tag == 301) ? fc_find_exact(&fc, pa[i].tag, pa[i].ref) : NULL;
+                    if (!pd || pd->off != pa[i].offset || pd->len != pa[i].length)
+                        viol("datainfo:palette-location", "%s: GRgetpalinfo entry %d of %d is (%u,%u) offset %d length %d: no palette descriptor of the file says so", when, i, k,
+                             pa[i].tag, pa[i].ref, (int)pa[i].offset, (int)pa[i].length);
+                    for (int j = 0; j < i; j++)
+                        if (pa[j].tag == pa[i].tag && pa[j].ref == pa[i].ref)
+                            viol("datainfo:palette-duplicate", "%s: GRgetpalinfo reports (%u,%u) twice", when, pa[i].tag, pa[i].ref);
+                }
+                free(pa);
+                mc_count("palinfo_probes", 1);
+            }
+        }
         if (G != FAIL)
             GRend(G);
     }
